@@ -139,17 +139,25 @@ class LogsProfile:
 
     def gen_run(self, rnd, opts, tier, tag):
         steps = [{"kind": "reload", "ents": gen_section(rnd), "mode": "start"}]
-        for _ in range(rnd.randint(1, 4)):
+        for _ in range(rnd.randint(1, 5)):
             k = rnd.random()
             if k < 0.55:
                 steps.append({"kind": "reload", "ents": gen_section(rnd), "mode": rnd.choice(["plain", "plain", "burst", "emit-between"])})
-            elif k < 0.62:
+            elif k < 0.63:
+                # the operator moves a log file away (rotation); done only while no entry of the section in force
+                # names it (run time decides), so the daemon must have closed it and must open a new one later
+                steps.append({"kind": "rotate", "pick": rnd.randrange(24)})
+                if rnd.random() < 0.6:
+                    # ... and then names every file again
+                    steps.append({"kind": "reload", "ents": [[rnd.choice(["*.*", "*.>=debug", "core.*"]), list(FEW)]] + (gen_section(rnd) if rnd.random() < 0.4 else []),
+                                  "mode": "plain"})
+            elif k < 0.68:
                 # the new file has no logs section at all (or an empty one)
                 steps.append({"kind": "reload", "ents": rnd.choice([None, None, []]), "mode": rnd.choice(["plain", "plain", "burst"])})
-            elif k < 0.7:
+            elif k < 0.74:
                 prev = [s for s in steps if s["kind"] == "reload"][-1]
                 steps.append({"kind": "reload", "ents": copy.deepcopy(prev["ents"]), "mode": "plain", "same": True})
-            elif k < 0.78:
+            elif k < 0.8:
                 prev = [s for s in steps if s["kind"] == "reload"][-1]
                 ents = copy.deepcopy(prev["ents"]) or []
                 if ents:
@@ -193,6 +201,7 @@ class LogsProfile:
         res.transcript.append(("conf", render(first["ents"])))
         h = H.Host(conf, scratch)
         emitted = []
+        rotated = []        # (file, path it was moved to, size at that moment)
         nonce = [0]
         now = [0]
         died = None
@@ -231,6 +240,19 @@ class LogsProfile:
                 if adv:
                     h.adv(adv * 10 ** 9)
                     now[0] += adv * 10 ** 9
+                if s["kind"] == "rotate":
+                    cands = [f for f in FILES if os.path.exists(os.path.join(scratch, f)) and not any(f in c for c in rt.values())]
+                    if not cands:
+                        res.transcript.append(("rotate-skipped", "", []))
+                        continue
+                    s = dict(s, file=cands[s.get("pick", 0) % len(cands)])
+                    fpath = os.path.join(scratch, s["file"])
+                    rot = "%s.rot%d" % (fpath, len(rotated))
+                    os.rename(fpath, rot)
+                    rotated.append((s["file"], rot, os.path.getsize(rot)))
+                    res.extra["log_files_rotated_while_unreferenced"] = res.extra.get("log_files_rotated_while_unreferenced", 0) + 1
+                    res.transcript.append(("rotate", s["file"], []))
+                    continue
                 if s["kind"] == "damaged":
                     with open(conf, "w", encoding="latin1") as f:
                         f.write(s["text"])
@@ -282,11 +304,20 @@ class LogsProfile:
             viol.append(Violation(("C18",), "died", "daemon died or exited uncleanly during a logs-section history: rc=%s %s" % (ex.rc, ex.stderr[-300:])))
         content = {}
         for f in FILES:
+            content[f] = ""
+            for (rf, rot, size) in rotated:
+                if rf == f:
+                    with open(rot, "rb") as fh:
+                        content[f] += fh.read().decode("latin1")
+                    if os.path.getsize(rot) != size and not viol:
+                        viol.append(Violation(("C18",), "stale-destination", "log file %s was moved away while no entry named it (the daemon had "
+                                              "to close it); it has grown by %d bytes since: a later section's messages went to the old file "
+                                              "instead of a newly opened %s" % (f, os.path.getsize(rot) - size, f)))
             try:
                 with open(os.path.join(scratch, f), "rb") as fh:
-                    content[f] = fh.read().decode("latin1")
+                    content[f] += fh.read().decode("latin1")
             except FileNotFoundError:
-                content[f] = ""
+                pass
         hb = H.hashlib.sha256()
         for f in FILES:
             hb.update(content[f].encode("latin1"))
